@@ -1168,6 +1168,11 @@ class FileBuilder:
                 (not operation.raised and
                     not self._is_build_file_cached(operation)) or
 
+                # If the function raised, then it left nothing at the filename.
+                # If something is there now, then executing the operation would
+                # move it out of the way (or fail), so we can't skip it.
+                (operation.raised and os.path.lexists(operation.filename)) or
+
                 # If setup failed, then the conditions that gave rise to the
                 # failure might no longer hold. See SetupFailedTest for
                 # examples.
